@@ -1,4 +1,4 @@
-(* C10_Schemas.v — the six model types of harness/cmd/c10 as field descriptors (copied from the
+(* C10_Schemas.v — the seven fixed model types of harness/cmd/c10 as field descriptors (copied from the
    terms the harness prints; c10_harness_schemas_wf shows they meet the theorems' hypotheses). *)
 From Verif Require Import Base C10_Model.
 Open Scope Z_scope.
@@ -56,4 +56,11 @@ Definition schema_t6 : schema :=
    (mk_field "Zip"%string "zip"%string false None None (Some WCreateUpdate) false ANone);
    (mk_field "UpdatedAt"%string "updated_at"%string false None None None false AUpdate)].
 
-Definition harness_schemas : list schema := [schema_t1; schema_t2; schema_t3; schema_t4; schema_t5; schema_t6].
+Definition schema_t7 : schema :=
+  [(mk_field "ID"%string "id"%string false None None None true ANone);
+   (mk_field "Locale"%string "locale"%string false None None None true ANone);
+   (mk_field "Title"%string "title"%string false None None None false ANone);
+   (mk_field "Views"%string "views"%string false None None None false ANone);
+   (mk_field "UpdatedAt"%string "updated_at"%string false None None None false AUpdate)].
+
+Definition harness_schemas : list schema := [schema_t1; schema_t2; schema_t3; schema_t4; schema_t5; schema_t6; schema_t7].
